@@ -202,3 +202,14 @@ Fixpoint ostrs_eqb (a b : list (option string)) : bool :=
   end.
 Definition broadcast_case_ok (c : list string * list string * list (option string)) : bool :=
   let '(core, bdims, impl) := c in ostrs_eqb (broadcast_result core bdims) impl.
+
+(* ---- _normalize_indexes per-axis cases (K2): 0 = int i, 1 = slice(start|-1, stop|-1), 2 = list ---- *)
+From Flox Require Import NormIdx.
+Definition axis_index_code (ix : axis_index) : list Z :=
+  match ix with
+  | IInt i => [0; i]
+  | ISlice s e => [1; match s with Some x => x | None => -1 end; match e with Some x => x | None => -1 end]
+  | IList l => 2 :: l
+  end.
+Definition normidx_case_ok (c : list Z * Z * list Z) : bool :=
+  let '(idx, n, impl) := c in list_z_eqb (axis_index_code (normalize_axis idx n)) impl.
